@@ -7,15 +7,18 @@
      Model/PGSpec.v         reference model of the documented interface: per graph id, no store, no
                             internal ids; [abs_shared s g] / [abs_disjoint d g] = the reference graph
                             that graph id g sees in a store.
-   [refine_scope o]  = o is one of the operations of the property's quantifier (add/delete node, add link,
+   [refine_scope0 o] = o is one of the operations of the property's quantifier (add/delete node, add link,
                        update/unset node and link properties singly and in bulk, whole-graph update,
                        listings, existence/uniqueness tests, matching, delete graph) and does not REWRITE
                        GraphID / NodeID (re-homing / renaming: outside the documented interface, C14).
-                       merge_nodes has its own theorems; import / clone are C04's. *)
+   [refine_scope o]  = the same plus the storage operations import / direct import / clone, the imported graph
+                       being a networkx graph (distinct node keys, links join its own nodes, one link per pair;
+                       a direct import carries its graph id on every node).
+   merge_nodes has its own theorems (and is followed by the extended reference model in the lock-step stream). *)
 From Coq Require Import List NArith Bool.
 From FIM Require Import Base.Assoc Gen.PGConst Model.Store Model.StoreDisjoint Model.PGSpec.
 From FIM Require Import Proofs.IsolationShared Proofs.RefineGuards Proofs.RefineUnique Proofs.RefineMerge
-                        Proofs.RefineSim Proofs.RefineStores Proofs.RefineWitness.
+                        Proofs.RefineSim Proofs.RefineStores Proofs.RefineWitness Proofs.IsolationClone Proofs.RefineImport.
 Import ListNotations.
 Open Scope N_scope.
 
@@ -27,33 +30,71 @@ Proof. exact constants_tied_true. Qed.
 Print Assumptions C05_translated.
 
 (* ---- agreement with the reference model and with each other ---- *)
+(* the shared store refines the reference model on every history, imports, re-imports and clones included *)
 Theorem C05_shared_refines_spec : forall ops,
   (forall o, In o ops -> refine_scope o = true) ->
   sresults init_store ops = spec_results [] ops /\
   forall g, abs_shared (srun ops init_store) g = sget (spec_run ops []) g.
-Proof. exact shared_refines_spec. Qed.
+Proof. exact shared_refines_spec_import. Qed.
 Print Assumptions C05_shared_refines_spec.
 
-Theorem C05_disjoint_refines_spec : forall ops,
-  (forall o, In o ops -> refine_scope o = true) ->
+(* the one-graph-per-id store refines it as long as every import goes to an id that holds no nodes and every
+   clone goes from a graph that holds nodes to an id that holds none ([disjoint_scope_run], evaluated on the
+   reference run) ... *)
+Theorem C05_disjoint_refines_spec_partial : forall ops,
+  (forall o, In o ops -> refine_scope o = true) -> disjoint_scope_run [] ops = true ->
   dresults init_dstore ops = spec_results [] ops /\
   forall g, abs_disjoint (drun ops init_dstore) g = sget (spec_run ops []) g.
-Proof. exact disjoint_refines_spec. Qed.
-Print Assumptions C05_disjoint_refines_spec.
+Proof. exact disjoint_refines_spec_import. Qed.
+Print Assumptions C05_disjoint_refines_spec_partial.
 
-(* same results, same exceptions, same content, step by step, for every history of the quantified
-   operations (full strength since fix 6383c41: find_matching_nodes with a partner that holds no nodes
-   returns the empty set on both flavours) *)
+(* ... and these are exactly its deviations (FULL statement - the same without [disjoint_scope_run] - is false):
+   an import or a clone onto an id that holds nodes does nothing and returns normally (the reference and the
+   shared store replace the graph); a clone of a graph without nodes returns normally and creates nothing
+   (the reference and the shared store fail).  Known findings of C05 / C04, proposed fixes C05-3, C05-4. *)
+Theorem C05_disjoint_reimport_live_skips : forall d g ig,
+  gn (dget d g) <> [] -> dstep d (OImport g ig) = (d, Ok RUnit).
+Proof. exact disjoint_reimport_live_skips. Qed.
+Print Assumptions C05_disjoint_reimport_live_skips.
+
+Theorem C05_disjoint_clone_live_skips : forall d g g2,
+  gn (dget d g2) <> [] -> dstep d (OClone g g2) = (d, Ok RUnit).
+Proof. exact disjoint_clone_live_skips. Qed.
+Print Assumptions C05_disjoint_clone_live_skips.
+
+Theorem C05_disjoint_clone_absent_source : forall d g g2,
+  gn (dget d g) = [] -> gn (dget d g2) = [] ->
+  snd (dstep d (OClone g g2)) = Ok RUnit /\ gn (dget (fst (dstep d (OClone g g2))) g2) = [] /\
+  forall sp, sp_exists (sget sp g) = false -> snd (spec_step sp (OClone g g2)) = Err EAttr.
+Proof. exact disjoint_clone_absent_source. Qed.
+Print Assumptions C05_disjoint_clone_absent_source.
+
+(* same results, same exceptions, same content, step by step: FULL strength on the operations the property
+   quantifies over (no import / clone in the history) ... *)
 Theorem C05_backends_agree : forall ops,
-  (forall o, In o ops -> refine_scope o = true) ->
+  (forall o, In o ops -> refine_scope0 o = true) ->
   sresults init_store ops = dresults init_dstore ops /\
   forall g, abs_shared (srun ops init_store) g = abs_disjoint (drun ops init_dstore) g.
 Proof. exact backends_agree. Qed.
 Print Assumptions C05_backends_agree.
 
-(* documentation only - OUTSIDE the quantifier of C05 (these are storage / importer operations, C04):
-   import onto a live id (replace vs skip with a warning) and clone of a graph without nodes
-   (AttributeError vs normal return) differ between the two flavours *)
+(* ... and with the storage operations in the history, under the domain condition above *)
+Theorem C05_backends_agree_storage_partial : forall ops,
+  (forall o, In o ops -> refine_scope o = true) -> disjoint_scope_run [] ops = true ->
+  sresults init_store ops = dresults init_dstore ops /\
+  forall g, abs_shared (srun ops init_store) g = abs_disjoint (drun ops init_dstore) g.
+Proof. exact backends_agree_import. Qed.
+Print Assumptions C05_backends_agree_storage_partial.
+
+(* the reference model extended by cross-graph links (used three-way after merge_nodes by the lock-step
+   stream) coincides with the reference model on merge-free histories *)
+Theorem C05_xspec_conservative : forall ops sp,
+  (forall o, In o ops -> (match o with OMerge _ _ _ _ => false | _ => true end) = true) ->
+  xspec_results (mkX sp []) ops = spec_results sp ops /\ xspec_run ops (mkX sp []) = mkX (spec_run ops sp) [].
+Proof. exact xspec_merge_free. Qed.
+Print Assumptions C05_xspec_conservative.
+
+(* concrete witnesses of the deviations (replayed on the real code on every run) *)
 Theorem C05_agree_reimport_live_refuted :
   exists ops, (forall o, In o ops -> in_spec_scope o = true) /\
               results_eqb (sresults init_store ops) (dresults init_dstore ops) = false.
@@ -146,7 +187,7 @@ Example C05_merge_fails_nonvacuous :
 Proof. exact merge_fails_nonvacuous. Qed.
 
 Example C05_agree_nonvacuous :
-  forallb refine_scope w_agree = true /\
+  forallb refine_scope0 w_agree = true /\
   sresults init_store w_agree =
     [Ok RUnit; Ok RUnit; Ok RUnit; Ok RUnit; Err EQuery; Ok RUnit; Err EQuery; Ok RUnit; Ok RUnit;
      Ok (RVals [PV 20]); Ok (RVals [PV 20; PV 21]); Ok RUnit; Err EQuery; Ok RUnit; Ok (RBool false); Ok (RVals [])] /\
